@@ -12,6 +12,10 @@
 //   * group action: p' = R p + T, R' = R * Rz(yaw) Ry(pitch) Rx(roll); the returned attitude is
 //     turned back into a matrix and compared with R' (never angle by angle);
 //   * ellipse: major >= minor >= 0 and Rot(theta) diag(major^2, minor^2) Rot(theta)^T / sigma^2 = Cxy.
+// On top of that every family re-runs its calls under the usage patterns a caller is entitled to
+// (copies / moved-from sources / temporaries / aliased arguments / other transform types / after
+// stream output and sibling objects / after 2^8+k and 2^16+k earlier calls) and requires the same bits,
+// binds the references returned by the Ellipse accessors and re-reads them at the end of the case.
 // Nothing here is derived from the library's output: covariances are built from a chosen spectrum
 // and orthogonal factor, rigid transforms from quaternions / Euler angles / signed permutations.
 #include <Eigen/Core>
@@ -155,7 +159,10 @@ static int pick_cov_kind(vh::Rng & r)
 }
 
 // fills the n x n double matrix C (exactly symmetric)
-template<class M> static CovMeta gen_cov(vh::Rng & r, int n, int kind, M & C, double max_cond = 0.99e8)
+// `extreme`: lambda_max log-uniform over 1e-290..1e290 instead of 1e-8..1e8 (the selection is a copy and
+// the ellipse's SVD rescales, so the unchanged code stays finite over the whole range; probe)
+template<class M> static CovMeta gen_cov(
+  vh::Rng & r, int n, int kind, M & C, double max_cond = 0.99e8, bool extreme = false)
 {
   CovMeta m;
   m.kind = kind;
@@ -169,7 +176,7 @@ template<class M> static CovMeta gen_cov(vh::Rng & r, int n, int kind, M & C, do
       int cols = r.coin(0.4) ? static_cast<int>(r.range(1, n - 1 > 1 ? n - 1 : 1)) : n;
       double L[6][6] = {};
       for (int i = 0; i < n; ++i) {for (int j = 0; j < cols; ++j) {L[i][j] = static_cast<double>(r.range(-4, 4));}}
-      double s = std::ldexp(1.0, static_cast<int>(r.range(-12, 12)));
+      double s = std::ldexp(1.0, static_cast<int>(extreme ? r.range(-960, 950) : r.range(-12, 12)));
       LD A[6][6], ev[6];
       for (int i = 0; i < n; ++i) {
         for (int j = 0; j < n; ++j) {
@@ -193,7 +200,7 @@ template<class M> static CovMeta gen_cov(vh::Rng & r, int n, int kind, M & C, do
     return m;
   }
   LD lam[6];
-  double lmax = r.coin(0.1) ? 1.0 : r.logu(1e-8, 1e8);
+  double lmax = extreme ? r.logu(1e-290, 1e290) : (r.coin(0.1) ? 1.0 : r.logu(1e-8, 1e8));
   double cond = 1;
   int rank = n;
   switch (kind) {
@@ -267,15 +274,26 @@ static double pick_component(vh::Rng & r, int mode)
     case 1: return r.sign() * r.logu(1e-6, 1e4);
     case 2: return r.coin(0.5) ? 0.0 : r.sign() * 1e4;
     case 3: return r.sign() * r.logu(1e-300, 1e-6);
+    case 5: {
+        // values random reals never produce: signed zeros, denormals, the smallest normal, integers
+        static const double S[] = {0.0, -0.0, 4.9406564584124654e-324, -4.9406564584124654e-324,
+          2.2250738585072014e-308, -2.2250738585072014e-308, 1.0, -1.0, 2.0, 1e-310, -3e-320, 10000.0};
+        return S[r.range(0, 11)];
+      }
+    case 6: return static_cast<double>(r.range(-100, 100));
     default: return r.uni(-10.0, 10.0);
   }
 }
 static Eigen::Vector3d pick_vec3(vh::Rng & r)
 {
-  int mode = static_cast<int>(r.range(0, 5));
-  if (mode == 5) {return Eigen::Vector3d::Zero();}
+  int mode = static_cast<int>(r.range(0, 8));
+  if (mode == 7) {return Eigen::Vector3d::Zero();}
   Eigen::Vector3d v;
-  for (int i = 0; i < 3; ++i) {v[i] = pick_component(r, r.coin(0.8) ? mode : static_cast<int>(r.range(0, 4)));}
+  if (mode == 8) {                     // equal components
+    v.setConstant(pick_component(r, static_cast<int>(r.range(0, 6))));
+    return v;
+  }
+  for (int i = 0; i < 3; ++i) {v[i] = pick_component(r, r.coin(0.8) ? mode : static_cast<int>(r.range(0, 6)));}
   return v;
 }
 
@@ -369,14 +387,33 @@ static const char * XF_NAME[] = {"xf_quaternion", "xf_euler", "xf_signed_permuta
   "xf_small_angle", "xf_to_near_lock", "xf_half_turn"};
 enum {XF_QUAT = 0, XF_EULER, XF_PERM, XF_TRANS, XF_SMALL, XF_NEARLOCK, XF_HALFTURN, XF_NKINDS};
 
-static Eigen::Vector3d pick_translation(vh::Rng & r)
+// translations are not bounded by the statement ("every rigid transform"): 10% have components
+// log-spaced up to 1e300 (R p + T and the product of two such transforms stay finite up to ~1e307)
+static Eigen::Vector3d pick_translation(vh::Rng & r, bool & huge)
 {
-  return pick_vec3(r);
+  huge = r.coin(0.1);
+  if (!huge) {return pick_vec3(r);}
+  Eigen::Vector3d v;
+  for (int i = 0; i < 3; ++i) {v[i] = r.coin(0.2) ? 0.0 : r.sign() * r.logu(1e4, 1e300);}
+  return v;
+}
+// inverse of a rigid transform: (R^T, -R^T T), the translation evaluated in long double
+static Eigen::Affine3d inverse_of(const Eigen::Affine3d & A)
+{
+  Eigen::Affine3d I = Eigen::Affine3d::Identity();
+  Eigen::Matrix3d Rt = A.linear().transpose();
+  I.linear() = Rt;
+  for (int i = 0; i < 3; ++i) {
+    LD t = 0;
+    for (int k = 0; k < 3; ++k) {t += static_cast<LD>(Rt(i, k)) * static_cast<LD>(A.translation()[k]);}
+    I.translation()[i] = static_cast<double>(-t);
+  }
+  return I;
 }
 
 // `current` is the attitude (as a matrix) of the pose the transform will be applied to; it is only
 // used by the kind that steers the result towards gimbal lock.
-static Eigen::Affine3d gen_transform(vh::Rng & r, int kind, const M3 & current)
+static Eigen::Affine3d gen_transform(vh::Rng & r, int kind, const M3 & current, bool & huge)
 {
   Eigen::Matrix3d R = Eigen::Matrix3d::Identity();
   switch (kind) {
@@ -421,7 +458,7 @@ static Eigen::Affine3d gen_transform(vh::Rng & r, int kind, const M3 & current)
   }
   Eigen::Affine3d A = Eigen::Affine3d::Identity();
   A.linear() = R;
-  A.translation() = pick_translation(r);
+  A.translation() = pick_translation(r, huge);
   return A;
 }
 
@@ -461,6 +498,71 @@ static bool same_bits(const rc::Twist2D & a, const rc::Twist2D & b)
   return ok;
 }
 
+static void poison(vh::Rng & r, rc::Pose3D & p)
+{
+  for (int i = 0; i < 3; ++i) {p.position[i] = r.uni(-1e30, 1e30); p.orientation[i] = r.uni(-1e30, 1e30);}
+  for (int i = 0; i < 36; ++i) {p.covariance(i) = r.uni(-1e30, 1e30);}
+}
+static void poison(vh::Rng & r, rc::Twist3D & t)
+{
+  for (int i = 0; i < 3; ++i) {t.linearSpeeds[i] = r.uni(-1e30, 1e30); t.angularSpeeds[i] = r.uni(-1e30, 1e30);}
+  for (int i = 0; i < 36; ++i) {t.covariance(i) = r.uni(-1e30, 1e30);}
+}
+static void poison(vh::Rng & r, rc::PoseAndTwist3D & p) {poison(r, p.pose); poison(r, p.twist);}
+static bool same_bits(const rc::Pose3D & a, const rc::Pose3D & b)
+{
+  bool ok = true;
+  for (int i = 0; i < 3; ++i) {ok = ok && biteq(a.position[i], b.position[i]) && biteq(a.orientation[i], b.orientation[i]);}
+  for (int i = 0; i < 36; ++i) {ok = ok && biteq(a.covariance(i), b.covariance(i));}
+  return ok;
+}
+static bool same_bits(const rc::Twist3D & a, const rc::Twist3D & b)
+{
+  bool ok = true;
+  for (int i = 0; i < 3; ++i) {
+    ok = ok && biteq(a.linearSpeeds[i], b.linearSpeeds[i]) && biteq(a.angularSpeeds[i], b.angularSpeeds[i]);
+  }
+  for (int i = 0; i < 36; ++i) {ok = ok && biteq(a.covariance(i), b.covariance(i));}
+  return ok;
+}
+static bool same_bits(const rc::PoseAndTwist3D & a, const rc::PoseAndTwist3D & b)
+{
+  return same_bits(a.pose, b.pose) && same_bits(a.twist, b.twist);
+}
+static bool same_bits(const rc::PoseAndTwist2D & a, const rc::PoseAndTwist2D & b)
+{
+  return same_bits(a.pose, b.pose) && same_bits(a.twist, b.twist);
+}
+static bool same_bits(const rc::Position3D & a, const rc::Position3D & b)
+{
+  bool ok = true;
+  for (int i = 0; i < 3; ++i) {ok = ok && biteq(a.position[i], b.position[i]);}
+  for (int i = 0; i < 9; ++i) {ok = ok && biteq(a.covariance(i), b.covariance(i));}
+  return ok;
+}
+template<class M> static bool same_matrix_bits(const M & a, const M & b)
+{
+  bool ok = true;
+  for (int i = 0; i < a.size(); ++i) {ok = ok && biteq(a(i), b(i));}
+  return ok;
+}
+// zero off-diagonal entries of a PSD matrix may carry either sign: flip them to -0.0
+template<class M> static void negative_zeros(M & C)
+{
+  for (int i = 0; i < C.rows(); ++i) {
+    for (int j = 0; j < C.cols(); ++j) {if (i != j && C(i, j) == 0) {C(i, j) = -0.0;}}
+  }
+}
+// how many times a call is repeated before it is observed (0: no repetition): 2^8+k in `p8` of the
+// cases, 2^16+k in `p16` of them (8- and 16-bit call counters, index wrap-around)
+static int history_length(vh::Rng & r, double p8, double p16)
+{
+  double u = r.uni();
+  if (u < p16) {return 65536 + static_cast<int>(r.range(0, 7));}
+  if (u < p16 + p8) {return 256 + static_cast<int>(r.range(0, 7));}
+  return 0;
+}
+
 static void case_reduce(vh::Ctx & c, vh::Rng & r)
 {
   rc::PoseAndTwist3D pt3;
@@ -472,16 +574,23 @@ static void case_reduce(vh::Ctx & c, vh::Rng & r)
   t3.linearSpeeds = pick_vec3(r);
   t3.angularSpeeds = pick_vec3(r);
   int ck = pick_cov_kind(r), ckt = r.coin(0.5) ? ck : pick_cov_kind(r);
-  CovMeta mp = gen_cov(r, 6, ck, p3.covariance);
-  CovMeta mt = gen_cov(r, 6, ckt, t3.covariance);
+  const bool extreme = r.coin(0.1);          // covariance scale 1e-290..1e290
+  const bool negzero = r.coin(0.1);          // zero covariances entries stored as -0.0
+  CovMeta mp = gen_cov(r, 6, ck, p3.covariance, 0.99e8, extreme);
+  CovMeta mt = gen_cov(r, 6, ckt, t3.covariance, 0.99e8, extreme);
+  (void)mt;
   Eigen::Matrix3d c3;                        // planar covariance for the embedding
   int ck3 = pick_cov_kind(r);
-  CovMeta m3 = gen_cov(r, 3, ck3, c3);
+  CovMeta m3 = gen_cov(r, 3, ck3, c3, 0.99e8, extreme);
+  if (negzero) {negative_zeros(p3.covariance); negative_zeros(t3.covariance); negative_zeros(c3);}
+  const rc::PoseAndTwist3D pt3_saved(pt3);   // the inputs as they were at call time
 
   const std::string cat = std::string("reduce_cov_") + COV_NAME[ck];
   c.cat("reduce");
   c.cat(cat);
   c.cat(std::string("embed_cov_") + COV_NAME[ck3]);
+  if (extreme) {c.cat("reduce_extreme_scale");}
+  if (negzero) {c.cat("reduce_negative_zero_cov");}
   bool trivial = (ck == COV_DIAGONAL || ck == COV_ZERO || ck == COV_ISOTROPIC) &&
     (ckt == COV_DIAGONAL || ckt == COV_ZERO || ckt == COV_ISOTROPIC);
   uint64_t h = vh::hash_doubles({1.0, p3.position[0], p3.position[1], p3.position[2], p3.orientation[0],
@@ -630,7 +739,7 @@ static void case_reduce(vh::Ctx & c, vh::Rng & r)
     c.violation("nonfinite", pe(), we());
   }
 
-  // ---- the same selection on float matrices (the selectors are templates)
+  // ---- the same selection on float and long double matrices (the selectors are templates)
   if (r.coin(0.5)) {
     Eigen::Matrix6f f6 = p3.covariance.cast<float>();
     Eigen::Matrix3f f3 = rc::toSe2Covariance(f6);
@@ -643,7 +752,124 @@ static void case_reduce(vh::Ctx & c, vh::Rng & r)
     c.expect("reduce.float_selection", ok, "reduce_cov_float", params, [&]() {
         return vh::J().raw("case", wit()).raw("got_se2f", vh::jmat(f3)).raw("roundtrip_f", vh::jmat(gb)).str();
       });
+  } else {
+    typedef Eigen::Matrix<LD, 6, 6> M6L;
+    typedef Eigen::Matrix<LD, 3, 3> M3L;
+    auto same = [](LD x, LD y) {return x == y && std::signbit(x) == std::signbit(y);};
+    M6L l6 = p3.covariance.cast<LD>();
+    M3L l3 = rc::toSe2Covariance(l6);
+    static const int S[3] = {0, 1, 5};
+    bool ok = true;
+    for (int i = 0; i < 3; ++i) {for (int j = 0; j < 3; ++j) {ok = ok && same(l3(i, j), l6(S[i], S[j]));}}
+    M3L k3 = c3.cast<LD>();
+    M3L kb = rc::toSe2Covariance(rc::toSe3Covariance(k3));
+    for (int i = 0; i < 9; ++i) {ok = ok && same(kb(i), k3(i));}
+    c.expect("reduce.long_double_selection", ok, "reduce_cov_long_double", params, [&]() {
+        return vh::J().raw("case", wit()).raw("got_se2l", vh::jmat(l3)).raw("roundtrip_l", vh::jmat(kb)).str();
+      });
   }
+
+  // ---- API discipline: the reductions are pure functions of the VALUES of their arguments
+  const bool api = r.coin(0.15);
+  if (api) {
+    c.cat("reduce_api");
+    // (a) value semantics of the argument types: every kind of copy reduces like the original,
+    //     also after the object it was copied from has been overwritten
+    {
+      rc::PoseAndTwist3D src(pt3);
+      rc::PoseAndTwist3D cc(src);
+      rc::PoseAndTwist3D ca; poison(r, ca); ca = src;
+      rc::PoseAndTwist3D tmp1(src); rc::PoseAndTwist3D mc(std::move(tmp1));
+      rc::PoseAndTwist3D tmp2(src); rc::PoseAndTwist3D ma; poison(r, ma); ma = std::move(tmp2);
+      rc::PoseAndTwist3D & alias = cc; cc = alias;
+      poison(r, src); poison(r, tmp1); poison(r, tmp2);
+      bool ok = same_bits(rc::toPoseAndTwist2D(cc), pt2) && same_bits(rc::toPoseAndTwist2D(ca), pt2) &&
+        same_bits(rc::toPoseAndTwist2D(mc), pt2) && same_bits(rc::toPoseAndTwist2D(ma), pt2) &&
+        same_bits(rc::toPose2D(cc.pose), p2) && same_bits(rc::toTwist2D(ma.twist), t2) &&
+        same_bits(rc::toPosition3D(mc.pose), q3);
+      // using (and then overwriting) a copy leaves its source alone
+      rc::PoseAndTwist3D keep(pt3); rc::PoseAndTwist3D user(keep);
+      rc::PoseAndTwist2D out; rc::toPoseAndTwist2D(user, out); poison(r, user);
+      ok = ok && same_bits(keep, pt3_saved) && same_bits(out, pt2);
+      // results are values too
+      rc::PoseAndTwist2D rcopy(pt2); rc::PoseAndTwist2D rassign; rassign = rcopy; poison(r, rcopy.pose); poison(r, rcopy.twist);
+      rc::Position3D qcopy(q3); rc::Position3D qassign; qassign = qcopy; qcopy.covariance.setConstant(1e30);
+      ok = ok && same_bits(rassign, pt2) && same_bits(qassign, q3);
+      c.expect("reduce.api.copy_semantics", ok, "copy_semantics", params, [&]() {
+          return vh::J().raw("case", wit()).s("what", "copied / moved / self-assigned PoseAndTwist3D reduces differently").str();
+        });
+    }
+    // (b) value categories: temporaries and moved-from-able arguments
+    {
+      rc::PoseAndTwist3D m1(pt3), m2(pt3), m3c(pt3);
+      rc::PoseAndTwist2D o1; rc::Pose2D o2; rc::Twist2D o3; rc::Position3D o4;
+      rc::toPoseAndTwist2D(rc::PoseAndTwist3D(pt3), o1);
+      rc::toPose2D(rc::Pose3D(p3), o2);
+      rc::toTwist2D(rc::Twist3D(t3), o3);
+      rc::toPosition3D(rc::Pose3D(p3), o4);
+      bool ok = same_bits(rc::toPoseAndTwist2D(rc::PoseAndTwist3D(pt3)), pt2) && same_bits(rc::toPose2D(rc::Pose3D(p3)), p2) &&
+        same_bits(rc::toTwist2D(std::move(m1.twist)), t2) && same_bits(rc::toPosition3D(std::move(m2.pose)), q3) &&
+        same_bits(rc::toPoseAndTwist2D(std::move(m3c)), pt2) && same_bits(o1, pt2) && same_bits(o2, p2) &&
+        same_bits(o3, t2) && same_bits(o4, q3) &&
+        same_matrix_bits(rc::toSe2Covariance(Eigen::Matrix6d(p3.covariance)), p2.covariance) &&
+        same_matrix_bits(rc::toSe3Covariance(Eigen::Matrix3d(c3)), e6) &&
+        same_matrix_bits(rc::toSe2Covariance(rc::toSe3Covariance(Eigen::Matrix3d(c3))), c3);
+      c.expect("reduce.api.rvalue_arguments", ok, "value_category", params, [&]() {
+          return vh::J().raw("case", wit()).s("what", "temporary / std::move argument reduces differently").str();
+        });
+    }
+    // (c) neighbouring facilities between two observations: stream formatting of every geometry
+    //     type, sibling objects going through the same functions
+    {
+      std::ostringstream os;
+      os.precision(static_cast<int>(r.range(1, 17)));
+      if (r.coin()) {os << std::scientific;}
+      os << pt2 << p2 << t2;
+      if (r.coin(0.15)) {os << pt3 << p3 << t3;}          // 6x6 printing is slow, keep it rare
+      rc::PoseAndTwist3D other; poison(r, other);
+      rc::PoseAndTwist2D other2 = rc::toPoseAndTwist2D(other);
+      rc::toPoseAndTwist2D(other, other2);
+      rc::Position3D other3 = rc::toPosition3D(other.pose);
+      (void)other3;
+      bool ok = same_bits(rc::toPoseAndTwist2D(pt3), pt2) && same_bits(rc::toPose2D(p3), p2) &&
+        same_bits(rc::toTwist2D(t3), t2) && same_bits(rc::toPosition3D(p3), q3) &&
+        same_matrix_bits(rc::toSe3Covariance(c3), e6) && same_matrix_bits(rc::toSe2Covariance(e6), back) && os.good();
+      c.expect("reduce.api.stable_after_neighbour_calls", ok, "result_unstable", params, [&]() {
+          return vh::J().raw("case", wit()).s("what", "same call, different result after stream output / sibling objects").str();
+        });
+    }
+  }
+  // (d) long histories: the same destinations filled over and over, alternately from two sources
+  if (int N = history_length(r, 0.005, 0.00005)) {
+    c.cat(N > 60000 ? "reduce_history_2^16" : "reduce_history_2^8");
+    c.cat(N > 60000 ? "history_2^16" : "history_2^8");
+    rc::PoseAndTwist3D other(pt3);
+    other.pose.position += Eigen::Vector3d(1, -2, 3); other.pose.orientation[2] += 0.5; other.twist.angularSpeeds[2] -= 1;
+    other.pose.covariance(0, 5) += 1; other.pose.covariance(5, 0) += 1; other.twist.covariance(5, 5) += 2;
+    rc::PoseAndTwist2D d; rc::Pose2D dp; rc::Twist2D dt; rc::Position3D dq; Eigen::Matrix3d d3; Eigen::Matrix6d d6;
+    for (int i = 0; i <= N; ++i) {
+      const rc::PoseAndTwist3D & src = (i == N || (i & 1)) ? pt3 : other;
+      rc::toPoseAndTwist2D(src, d); rc::toPose2D(src.pose, dp); rc::toTwist2D(src.twist, dt);
+      rc::toPosition3D(src.pose, dq);
+      d3 = rc::toSe2Covariance(src.pose.covariance);
+      d6 = rc::toSe3Covariance(d3);
+    }
+    bool ok = same_bits(d, pt2) && same_bits(dp, p2) && same_bits(dt, t2) && same_bits(dq, q3) &&
+      same_matrix_bits(d3, p2.covariance) && same_bits(rc::toPoseAndTwist2D(pt3), pt2);
+    auto ph = [&]() {auto q = params(); q.push_back({"calls", (double)N}); return q;};
+    c.expect("reduce.api.long_history", ok, "history_dependent", ph, [&]() {
+        return vh::J().raw("case", wit()).f("calls", N).s("what", "result differs after many earlier calls").str();
+      });
+  }
+  // (e) at the end of the case: the inputs were not touched, the results obtained first still hold
+  c.expect("reduce.api.inputs_untouched", same_bits(pt3, pt3_saved), "input_modified", params, [&]() {
+      return vh::J().raw("case", wit()).raw("pose_cov_before", vh::jmat(pt3_saved.pose.covariance))
+             .raw("position_before", vh::jvec(pt3_saved.pose.position)).str();
+    });
+  c.expect("reduce.api.results_kept", mean_cov_ok(pt2.pose, pt2.twist) && mean_cov_ok(pt2b.pose, pt2b.twist) &&
+    same_bits(p2b, p2) && same_bits(t2b, t2) && same_bits(q3b, q3), "result_unstable", params, [&]() {
+      return vh::J().raw("case", wit()).s("what", "results held by value changed by the end of the case").str();
+    });
 }
 
 // ------------------------------------------------------------------------------------------
@@ -665,10 +891,10 @@ static void case_se3(vh::Ctx & c, vh::Rng & r)
 
   // transforms A (applied last) and B, re-drawn while an image comes closer than 1e-3 rad to
   // gimbal lock (the quantifier excludes such poses; the oracle decides, not the library)
-  int ka = 0, kb = 0;
+  int ka = 0, kb = 0, special = 0;
   Eigen::Affine3d A, B;
   M3 RB, RA, R_B_pose, R_A_pose, R_AB_pose;
-  bool found = false;
+  bool found = false, hugeA = false, hugeB = false;
   for (int attempt = 0; attempt < 16 && !found; ++attempt) {
     static const int W[XF_NKINDS] = {30, 15, 10, 8, 10, 20, 7};
     auto pk = [&]() {
@@ -677,11 +903,22 @@ static void case_se3(vh::Ctx & c, vh::Rng & r)
         return 0;
       };
     kb = pk();
-    B = gen_transform(r, kb, Rp);
+    B = gen_transform(r, kb, Rp, hugeB);
     RB = from_eigen(B.linear());
     R_B_pose = mul(RB, Rp);
     ka = pk();
-    A = gen_transform(r, ka, r.coin(0.5) ? R_B_pose : Rp);
+    A = gen_transform(r, ka, r.coin(0.5) ? R_B_pose : Rp, hugeA);
+    // exact relations random draws never produce: the same transform twice, a transform and its
+    // inverse, an image exactly at (or one rounding from) the origin
+    special = static_cast<int>(r.range(0, 24));
+    if (special == 1) {A = B; ka = kb; hugeA = hugeB;} else if (special == 2) {A = inverse_of(B); hugeA = hugeB;} else if (special == 3) {
+      for (int i = 0; i < 3; ++i) {
+        LD t = 0;
+        for (int k = 0; k < 3; ++k) {t += static_cast<LD>(A.linear()(i, k)) * static_cast<LD>(pose.position[k]);}
+        A.translation()[i] = static_cast<double>(-t);
+      }
+      hugeA = false;
+    }
     RA = from_eigen(A.linear());
     R_A_pose = mul(RA, Rp);
     R_AB_pose = mul(RA, R_B_pose);
@@ -693,6 +930,12 @@ static void case_se3(vh::Ctx & c, vh::Rng & r)
   c.cat(XF_NAME[ka]);
   c.cat(XF_NAME[kb]);
   c.cat(ATT_NAME[attk]);
+  if (hugeA || hugeB) {c.cat("se3_huge_translation");}
+  if (special == 1) {c.cat("se3_same_transform_twice");}
+  if (special == 2) {c.cat("se3_transform_and_inverse");}
+  if (special == 3) {c.cat("se3_image_at_origin");}
+  const rc::Pose3D pose_saved(pose);
+  const Eigen::Affine3d A_saved(A), B_saved(B);
 
   const LD cp_in = cos_pitch_of(Rp), cp_A = cos_pitch_of(R_A_pose), cp_B = cos_pitch_of(R_B_pose),
     cp_AB = cos_pitch_of(R_AB_pose);
@@ -739,13 +982,17 @@ static void case_se3(vh::Ctx & c, vh::Rng & r)
   // Jacobi SVD; U and V are products of ~10 plane rotations each and are orthonormal only to
   // ~10 eps, which is inherited by R p and by every entry of R R_pose (observed up to 13 eps).
   const LD K_P = 256, K_R = 256;
+  // below the normal range the rounding unit is absolute (4.9e-324), not relative: each of the three
+  // products of a row of R p rounds to a multiple of denorm_min (<= 1.5 units per component, 2.6 on
+  // the norm, twice that for two successive transforms); 32 units keeps the same 6x head-room
+  const LD TINY = 32 * static_cast<LD>(std::numeric_limits<double>::denorm_min());
 
   // ---- identity is neutral
   {
     rc::Pose3D id = Eigen::Affine3d::Identity() * pose;
     if (!c.expect("se3.identity_finite", pose_finite(id), "nonfinite", params,
       [&]() {return wpose("Identity * pose", id);})) {return;}
-    c.expect_le("se3.identity_position", pos_err(id.position, p0), K_P * EPS * np, "se3_identity", params,
+    c.expect_le("se3.identity_position", pos_err(id.position, p0), K_P * EPS * np + TINY, "se3_identity", params,
       [&]() {return wpose("Identity * pose", id);});
     c.expect_le("se3.identity_attitude", max_abs_diff(euler_R(id.orientation), Rp), K_R * EPS / cp_in,
       "se3_identity", params, [&]() {return wpose("Identity * pose", id);});
@@ -757,7 +1004,7 @@ static void case_se3(vh::Ctx & c, vh::Rng & r)
   {
     LD e[3];
     apply(RA, A.translation(), p0, e);
-    c.expect_le("se3.position", pos_err(ap.position, e), K_P * EPS * (np + nTa), "se3_position", params, [&]() {
+    c.expect_le("se3.position", pos_err(ap.position, e), K_P * EPS * (np + nTa) + TINY, "se3_position", params, [&]() {
         return vh::J().raw("got", wpose("A * pose", ap)).f("ex", e[0]).f("ey", e[1]).f("ez", e[2]).str();
       });
     c.expect_le("se3.attitude", max_abs_diff(euler_R(ap.orientation), R_A_pose), K_R * EPS / cp_A, "se3_attitude",
@@ -782,18 +1029,113 @@ static void case_se3(vh::Ctx & c, vh::Rng & r)
                .raw("AB_pose_orientation", vh::jvec(ab_p.orientation)).raw("Bpose_position", vh::jvec(bp.position))
                .raw("Bpose_orientation", vh::jvec(bp.orientation)).str();
       };
-    c.expect_le("se3.compose_position", sqrtl(d), 2 * K_P * EPS * (np + nTa + nTb), "se3_compose", params, w);
+    c.expect_le("se3.compose_position", sqrtl(d), 2 * K_P * EPS * (np + nTa + nTb) + TINY, "se3_compose", params, w);
     c.expect_le("se3.compose_attitude", max_abs_diff(euler_R(abp.orientation), euler_R(ab_p.orientation)),
       K_R * EPS * (1 / cp_B + 2 / cp_AB), "se3_compose", params, w);
     // and both against the definition, so that a common deviation does not cancel
     LD e1[3], e2[3];
     apply(RB, B.translation(), p0, e1);
     apply(RA, A.translation(), e1, e2);
-    c.expect_le("se3.compose_position_vs_definition", pos_err(abp.position, e2), 2 * K_P * EPS * (np + nTa + nTb),
+    c.expect_le("se3.compose_position_vs_definition", pos_err(abp.position, e2), 2 * K_P * EPS * (np + nTa + nTb) + TINY,
       "se3_position", params, w);
     c.expect_le("se3.compose_attitude_vs_definition", max_abs_diff(euler_R(abp.orientation), R_AB_pose),
       K_R * EPS * (1 / cp_B + 1 / cp_AB), "se3_attitude", params, w);
   }
+
+  // ---- API discipline: A * pose is a pure function of the VALUES of A and pose (position and
+  //      attitude are what C11 looks at; `ap` above has been checked against the definition)
+  auto same_pose = [](const rc::Pose3D & x, const rc::Pose3D & y) {
+      bool ok = true;
+      for (int i = 0; i < 3; ++i) {ok = ok && biteq(x.position[i], y.position[i]) && biteq(x.orientation[i], y.orientation[i]);}
+      return ok;
+    };
+  // (each product costs two 3x3 SVDs: the sub-blocks are drawn independently, 5% each)
+  {
+    // (a) copies of the arguments, sources overwritten afterwards
+    if (r.coin(0.05)) {
+      c.cat("se3_api"); c.cat("se3_api_copies");
+      rc::Pose3D src(pose);
+      rc::Pose3D cc(src);
+      rc::Pose3D ca; poison(r, ca); ca = src;
+      rc::Pose3D tmp1(src); rc::Pose3D mc(std::move(tmp1));
+      rc::Pose3D tmp2(src); rc::Pose3D ma; poison(r, ma); ma = std::move(tmp2);
+      rc::Pose3D & alias = cc; cc = alias;
+      Eigen::Affine3d Asrc(A); Eigen::Affine3d Ac(Asrc); Asrc = B;
+      poison(r, src); poison(r, tmp1); poison(r, tmp2);
+      rc::Pose3D keep(pose); rc::Pose3D user(keep); rc::Pose3D got = Ac * user; poison(r, user);
+      rc::Pose3D rcopy(ap); rc::Pose3D rassign; rassign = rcopy; poison(r, rcopy);
+      bool ok = same_pose(Ac * cc, ap) && same_pose(A * ca, ap) && same_pose(A * mc, ap) && same_pose(Ac * ma, ap) &&
+        same_pose(got, ap) && same_bits(keep, pose_saved) && same_pose(rassign, ap);
+      c.expect("se3.api.copy_semantics", ok, "copy_semantics", params, [&]() {return wpose("A * copy-of-pose", Ac * cc);});
+    }
+    // (b) temporaries, std::move, the result assigned over its own argument
+    if (r.coin(0.05)) {
+      c.cat("se3_api"); c.cat("se3_api_rvalues");
+      rc::Pose3D m1(pose); Eigen::Affine3d Am(A);
+      rc::Pose3D self(pose); self = A * self;
+      rc::Pose3D t1 = Eigen::Affine3d(A) * rc::Pose3D(pose);
+      rc::Pose3D t2 = std::move(Am) * std::move(m1);
+      bool ok = same_pose(self, ap) && same_pose(t1, ap) && same_pose(t2, ap);
+      c.expect("se3.api.rvalue_and_self_assignment", ok, "value_category", params, [&]() {return wpose("pose = A * pose", self);});
+    }
+    // (c) the other Eigen transform types holding the same rigid motion (they convert to Affine3d)
+    if (r.coin(0.05)) {
+      c.cat("se3_api"); c.cat("se3_api_transform_types");
+      Eigen::Isometry3d iso = Eigen::Isometry3d::Identity();
+      iso.linear() = A.linear(); iso.translation() = A.translation();
+      Eigen::AffineCompact3d ac = Eigen::AffineCompact3d::Identity();
+      ac.linear() = A.linear(); ac.translation() = A.translation();
+      rc::Pose3D ri = iso * pose, rk = ac * pose;
+      c.expect("se3.api.transform_types", same_pose(ri, ap) && same_pose(rk, ap), "overload_mismatch", params,
+        [&]() {return wpose("Isometry3d * pose", ri);});
+    }
+    // (d) neighbouring facilities between two observations
+    if (r.coin(0.05)) {
+      c.cat("se3_api"); c.cat("se3_api_neighbours");
+      std::ostringstream os;
+      os.precision(static_cast<int>(r.range(1, 17)));
+      if (r.coin()) {os << std::scientific;}
+      os << rc::toPose2D(ap);
+      if (r.coin(0.15)) {os << pose << ap;}
+      rc::Pose3D other; poison(r, other);
+      other.orientation << r.uni(-3.0, 3.0), r.uni(-1.0, 1.0), r.uni(-3.0, 3.0);
+      for (int i = 0; i < 3; ++i) {other.position[i] = r.uni(-1e4, 1e4);}
+      rc::Pose3D o1 = B * other;
+      (void)o1;
+      rc::Pose3D again = A * pose;
+      c.expect("se3.api.stable_after_neighbour_calls", same_pose(again, ap) && os.good(), "result_unstable", params,
+        [&]() {return wpose("A * pose, second evaluation", again);});
+    }
+  }
+  // (e) long histories: the same product evaluated 2^8+k / 2^16+k times, alternating with another
+  if (int N = history_length(r, 0.0015, 0.00001)) {
+    c.cat(N > 60000 ? "se3_history_2^16" : "se3_history_2^8");
+    c.cat(N > 60000 ? "history_2^16" : "history_2^8");
+    rc::Pose3D last;
+    for (int i = 0; i <= N; ++i) {last = ((i == N || (i & 1)) ? A : B) * pose;}
+    auto ph = [&]() {auto q = params(); q.push_back({"calls", (double)N}); return q;};
+    c.expect("se3.api.long_history", same_pose(last, ap), "history_dependent", ph,
+      [&]() {return wpose("A * pose after many earlier calls", last);});
+    if (N < 1000) {
+      // the nearest thing to a mutator: pose <- A^-1 * (A * pose), N/2 times; the drift stays
+      // within the accumulated rounding budget of the N products
+      const Eigen::Affine3d Ai = inverse_of(A);
+      rc::Pose3D x(pose);
+      bool fin = true;
+      for (int i = 0; i < N / 2 && fin; ++i) {x = Ai * (A * x); fin = pose_finite(x);}
+      if (c.expect("se3.finite", fin, "nonfinite", ph, [&]() {return wpose("ping-pong chain", x);})) {
+        const LD steps = N / 2;
+        c.expect_le("se3.history_position_drift", pos_err(x.position, p0), steps * (4 * K_P * EPS * (np + nTa) + TINY),
+          "se3_history_drift", ph, [&]() {return wpose("(A^-1 A)^k * pose", x);});
+        c.expect_le("se3.history_attitude_drift", max_abs_diff(euler_R(x.orientation), Rp),
+          steps * K_R * EPS * (1 / cp_in + 1 / cp_A), "se3_history_drift", ph, [&]() {return wpose("(A^-1 A)^k * pose", x);});
+      }
+    }
+  }
+  // (f) at the end of the case: arguments untouched
+  c.expect("se3.api.inputs_untouched",
+    same_bits(pose, pose_saved) && same_matrix_bits(A.matrix(), A_saved.matrix()) &&
+    same_matrix_bits(B.matrix(), B_saved.matrix()), "input_modified", params, [&]() {return wpose("inputs changed", pose);});
 }
 
 // ------------------------------------------------------------------------------------------
@@ -806,13 +1148,34 @@ static void case_ellipse(vh::Ctx & c, vh::Rng & r)
   Eigen::Matrix2d C;
   // through a pose the xy block is extended to a 3x3 PSD matrix by a congruence that can
   // multiply the condition number by up to 6.9: keep the product below 1e8
-  CovMeta m = gen_cov(r, 2, ck, C, from_pose ? 1e7 : 0.99e8);
-  Eigen::Vector2d centre(pick_component(r, (int)r.range(0, 4)), pick_component(r, (int)r.range(0, 4)));
+  const bool extreme = r.coin(0.1);           // covariance scale 1e-290..1e290
+  CovMeta m = gen_cov(r, 2, ck, C, from_pose ? 1e7 : 0.99e8, extreme);
+  const bool ties = !extreme && r.coin(0.06);
+  if (ties) {
+    // exact ties: [[a, b], [b, a]] with dyadic a and b in {0, +-a/2, +-a, +-a(1 - 2^-20)}: principal axes
+    // exactly at +-45 degrees, equal diagonal, exactly singular or exactly isotropic
+    double a = static_cast<double>(r.range(1, 16)) * std::ldexp(1.0, static_cast<int>(r.range(-20, 20)));
+    static const double F[] = {0.0, 0.5, -0.5, 1.0, -1.0, 1.0 - 0x1p-20, -(1.0 - 0x1p-20)};
+    double f = F[r.range(0, 6)];
+    C << a, a * f, a * f, a;
+    m.rank = std::fabs(f) == 1.0 ? 1 : 2;
+    m.lmax = a * (1 + std::fabs(f));
+    m.cond = m.rank == 1 ? 1.0 : (1 + std::fabs(f)) / (1 - std::fabs(f));
+    m.angle = f == 0 ? 0 : (f > 0 ? M_PI / 4 : -M_PI / 4);
+  }
+  const bool negzero = r.coin(0.1);
+  if (negzero) {negative_zeros(C);}
+  Eigen::Vector2d centre(pick_component(r, (int)r.range(0, 6)), pick_component(r, (int)r.range(0, 6)));
+  // sigma in (0, 10]: log-uniform down to 1e-200 (sqrt(lambda) * sigma stays a normal number for the
+  // covariance scales generated with it); with the extreme covariance scales sigma stays in [1e-3, 10]
   double sigma;
-  int sk = static_cast<int>(r.range(0, 5));
+  int sk = static_cast<int>(r.range(0, 6));
   if (sk == 0) {sigma = 1.0;} else if (sk == 1) {sigma = 10.0;} else if (sk == 2) {sigma = r.uni(0.0, 10.0);} else if (sk == 3) {
     sigma = r.logu(1e-12, 10.0);
-  } else if (sk == 4) {sigma = static_cast<double>(r.range(1, 10));} else {sigma = r.logu(1e-3, 10.0);}
+  } else if (sk == 4) {sigma = static_cast<double>(r.range(1, 10));} else if (sk == 5) {sigma = r.logu(1e-200, 1e-12);} else {
+    sigma = r.logu(1e-3, 10.0);
+  }
+  if (extreme && sigma < 1e-3) {sigma = r.logu(1e-3, 10.0);}
   if (!(sigma > 0)) {sigma = 1.0;}
   if (sigma > 10.0) {sigma = 10.0;}
 
@@ -820,6 +1183,10 @@ static void case_ellipse(vh::Ctx & c, vh::Rng & r)
   c.cat("ellipse");
   c.cat(cat);
   c.cat(from_pose ? "ellipse_of_pose" : "ellipse_of_position");
+  if (extreme) {c.cat("ellipse_extreme_scale");}
+  if (ties) {c.cat("ellipse_exact_ties");}
+  if (negzero) {c.cat("ellipse_negative_zero_cov");}
+  if (sigma < 1e-12) {c.cat("ellipse_tiny_sigma");}
   bool trivial = (ck == COV_DIAGONAL || ck == COV_ISOTROPIC || ck == COV_ZERO) && sigma == 1.0;
   c.distinct(vh::hash_doubles({3.0, C(0, 0), C(0, 1), C(1, 1), sigma, centre[0], centre[1], from_pose ? 1.0 : 0.0}),
     !trivial);
@@ -856,8 +1223,17 @@ static void case_ellipse(vh::Ctx & c, vh::Rng & r)
         {"cond", m.cond}, {"lmax", (double)l_hi}, {"lmin", (double)l_lo}, {"angle", m.angle},
         {"from_pose", from_pose ? 1.0 : 0.0}};
     };
+  const rc::Pose2D pose_saved(pose);
+  const rc::Position2D pos_saved(pos);
+  const double sigma_saved = sigma;
   rc::Ellipse e = from_pose ? rc::uncertaintyEllipse(pose, sigma) : rc::uncertaintyEllipse(pos, sigma);
+  // the accessors return references: bound as such and looked at again at the end of the case
+  const double & ref_major = e.getMajorRadius();
+  const double & ref_minor = e.getMinorRadius();
+  const double & ref_theta = e.getOrientation();
+  const Eigen::Vector2d & ref_centre = e.getCenterPosition();
   const double major = e.getMajorRadius(), minor = e.getMinorRadius(), theta = e.getOrientation();
+  const Eigen::Vector2d got_centre = e.getCenterPosition();
   auto wit = [&]() {
       return vh::J().s("family", "ellipse").s("cov_kind", COV_NAME[ck]).boolean("from_pose", from_pose)
              .raw("xy_cov", vh::jmat(C)).raw("pose_cov", from_pose ? vh::jmat(pose.covariance) : std::string("null"))
@@ -881,6 +1257,109 @@ static void case_ellipse(vh::Ctx & c, vh::Rng & r)
         return vh::J().raw("case", wit()).f("r00", r00).f("r01", r01).f("r11", r11).str();
       });
   }
+
+  // ---- API discipline: the ellipse is a pure function of the VALUES (centre, xy covariance, sigma)
+  auto eq = [&](const rc::Ellipse & x) {
+      return biteq(x.getMajorRadius(), major) && biteq(x.getMinorRadius(), minor) && biteq(x.getOrientation(), theta) &&
+             biteq(x.getCenterPosition()[0], got_centre[0]) && biteq(x.getCenterPosition()[1], got_centre[1]);
+    };
+  auto make = [&]() {return from_pose ? rc::uncertaintyEllipse(pose, sigma) : rc::uncertaintyEllipse(pos, sigma);};
+  auto wapi = [&](const char * what, const rc::Ellipse & x) {
+      return vh::J().raw("case", wit()).s("what", what).f("got_major", x.getMajorRadius()).f("got_minor", x.getMinorRadius())
+             .f("got_orientation", x.getOrientation()).raw("got_centre2", vh::jvec(x.getCenterPosition())).str();
+    };
+  // the explicit constructors: the accessors give back what was given
+  {
+    const double ex = pick_component(r, (int)r.range(0, 6)), ey = pick_component(r, (int)r.range(0, 6)),
+      et = r.uni(-M_PI, M_PI), ea = r.logu(1e-6, 1e6), eb = ea * r.uni(0.0, 1.0);
+    rc::Ellipse x1(ex, ey, et, ea, eb);
+    rc::Ellipse x2(Eigen::Vector2d(ex, ey), et, ea, eb);
+    const rc::Ellipse & cx1 = x1;
+    bool ok = biteq(cx1.getCenterPosition()[0], ex) && biteq(cx1.getCenterPosition()[1], ey) && biteq(cx1.getOrientation(), et) &&
+      biteq(cx1.getMajorRadius(), ea) && biteq(cx1.getMinorRadius(), eb) && biteq(x2.getCenterPosition()[0], ex) &&
+      biteq(x2.getCenterPosition()[1], ey) && biteq(x2.getOrientation(), et) && biteq(x2.getMajorRadius(), ea) &&
+      biteq(x2.getMinorRadius(), eb);
+    c.expect("ellipse.accessors", ok, "ellipse_accessor", params, [&]() {return wapi("Ellipse(x, y, theta, a, b)", x1);});
+  }
+  if (r.coin(0.15)) {
+    c.cat("ellipse_api");
+    // sibling ellipse, used below as "something else of the same class"
+    Eigen::Matrix2d C2; gen_cov(r, 2, pick_cov_kind(r), C2);
+    rc::Position2D other; other.position << r.uni(-1e4, 1e4), r.uni(-1e4, 1e4); other.covariance = C2;
+    // (a) copies; the source is overwritten and destroyed afterwards
+    {
+      rc::Ellipse * src = new rc::Ellipse(e);
+      rc::Ellipse cc(*src);
+      rc::Ellipse ca(0, 0, 0, 0, 0); ca = *src;
+      rc::Ellipse * tmp1 = new rc::Ellipse(*src); rc::Ellipse mc(std::move(*tmp1));
+      rc::Ellipse * tmp2 = new rc::Ellipse(*src); rc::Ellipse ma(1, 1, 1, 1, 1); ma = std::move(*tmp2);
+      rc::Ellipse & alias = cc; cc = alias;
+      *src = rc::uncertaintyEllipse(other, 2.0); *tmp1 = *src; *tmp2 = *src;
+      delete src; delete tmp1; delete tmp2;
+      c.expect("ellipse.api.copy_semantics", eq(cc) && eq(ca) && eq(mc) && eq(ma) && eq(e), "copy_semantics", params,
+        [&]() {return wapi("copied / moved / self-assigned Ellipse", ca);});
+    }
+    // (b) temporaries; sigma aliasing a member of the argument; references from the ellipse's own
+    //     accessors passed straight back into a constructor that is assigned over it
+    {
+      rc::Ellipse t1 = from_pose ? rc::uncertaintyEllipse(rc::Pose2D(pose), double(sigma)) :
+        rc::uncertaintyEllipse(rc::Position2D(pos), double(sigma));
+      bool ok = eq(t1);
+      if (from_pose) {
+        rc::Pose2D pa(pose); pa.yaw = sigma;
+        ok = ok && eq(rc::uncertaintyEllipse(pa, pa.yaw));
+      } else {
+        rc::Position2D pa(pos); pa.position[0] = sigma;
+        rc::Ellipse al = rc::uncertaintyEllipse(pa, pa.position[0]);
+        ok = ok && biteq(al.getMajorRadius(), major) && biteq(al.getMinorRadius(), minor) && biteq(al.getOrientation(), theta) &&
+          biteq(al.getCenterPosition()[0], sigma) && biteq(al.getCenterPosition()[1], centre[1]);
+      }
+      rc::Ellipse g(e);
+      g = rc::Ellipse(g.getCenterPosition(), C, sigma);
+      ok = ok && eq(g);
+      rc::Ellipse h(e);
+      h = rc::Ellipse(h.getCenterPosition(), h.getOrientation(), h.getMajorRadius(), h.getMinorRadius());
+      ok = ok && eq(h);
+      c.expect("ellipse.api.aliasing_and_rvalues", ok, "aliased_argument", params,
+        [&]() {return wapi("temporary / aliased arguments", t1);});
+    }
+    // (c) neighbouring facilities, then the same call again
+    {
+      std::ostringstream os;
+      os.precision(static_cast<int>(r.range(1, 17)));
+      if (r.coin()) {os << std::scientific;}
+      os << pos << pose;
+      rc::Ellipse sib = rc::uncertaintyEllipse(other, r.uni(0.1, 10.0));
+      rc::Ellipse sib2(1.0, 2.0, 0.5, 3.0, 1.0);
+      (void)sib.getMajorRadius(); (void)sib2.getCenterPosition();
+      rc::Ellipse again = make();
+      c.expect("ellipse.api.stable_after_neighbour_calls", eq(again) && os.good(), "result_unstable", params,
+        [&]() {return wapi("same call, second evaluation", again);});
+    }
+  }
+  // (d) long histories
+  if (int N = history_length(r, 0.005, 0.00003)) {
+    c.cat(N > 60000 ? "ellipse_history_2^16" : "ellipse_history_2^8");
+    c.cat(N > 60000 ? "history_2^16" : "history_2^8");
+    rc::Position2D other; other.position << 1, 2; other.covariance << 2, 1, 1, 3;
+    rc::Ellipse last(0, 0, 0, 0, 0);
+    for (int i = 0; i <= N; ++i) {
+      if (i == N || (i & 1)) {last = make();} else {last = rc::uncertaintyEllipse(other, 3.0);}
+    }
+    auto ph = [&]() {auto q = params(); q.push_back({"calls", (double)N}); return q;};
+    c.expect("ellipse.api.long_history", eq(last), "history_dependent", ph,
+      [&]() {return wapi("after many earlier constructions", last);});
+  }
+  // (e) at the end of the case: what the bound references show, and the arguments
+  c.expect("ellipse.api.references_stable",
+    biteq(ref_major, major) && biteq(ref_minor, minor) && biteq(ref_theta, theta) && biteq(ref_centre[0], got_centre[0]) &&
+    biteq(ref_centre[1], got_centre[1]) && &ref_major == &e.getMajorRadius() && &ref_centre == &e.getCenterPosition(),
+    "result_unstable", params, [&]() {return wapi("references obtained first, read last", e);});
+  c.expect("ellipse.api.inputs_untouched",
+    same_matrix_bits(pose.covariance, pose_saved.covariance) && biteq(pose.yaw, pose_saved.yaw) &&
+    biteq(pose.position[0], pose_saved.position[0]) && biteq(pose.position[1], pose_saved.position[1]) &&
+    same_matrix_bits(pos.covariance, pos_saved.covariance) && biteq(pos.position[0], pos_saved.position[0]) &&
+    biteq(pos.position[1], pos_saved.position[1]) && biteq(sigma, sigma_saved), "input_modified", params, wit);
 }
 
 // ------------------------------------------------------------------------------------------
